@@ -2,7 +2,7 @@
 from hypothesis import strategies as st
 from vlib.core import Sub, Outcome
 from vlib import gen, sgrterm
-from vlib.interp import (Interp, BuilderInvalid, per_char, same_settings, tail_settings, change_points, describe,
+from vlib.interp import (Interp, BuilderInvalid, resolve_idx, per_char, same_settings, tail_settings, change_points, describe,
                          mk_settings, texts_of_specs, style, styles, groups, wellformed)
 from ansi_string import AnsiString, AnsiStr
 from ansi_string.ansi_format import AnsiSetting
@@ -28,7 +28,7 @@ def eval_remove(case):
     t = v.base_str
     n = len(t)
     per_b = per_char(v)
-    a, b = case['a'], case['b']
+    a, b = resolve_idx(case['a'], v), resolve_idx(case['b'], v)
     sel = case['sel']
     if sel is None:
         sel_texts = None
@@ -143,7 +143,7 @@ def strat():
                     gen.specs(cfg, 1, 2), st.just([]),
                     st.sampled_from([[{'k': 'str', 'v': ''}], [{'k': 'list', 'v': []}], [{'k': 'str', 'v': ';'}], [{'k': 'tuple', 'v': [{'k': 'str', 'v': ''}]}],
                                      [{'k': 'str', 'v': ''}, {'k': 'str', 'v': ';;'}]]))
-    return st.fixed_dictionaries({'p': gen.progs(cfg), 'sel': sel, 'a': gen.idx(), 'b': gen.idx()})
+    return st.fixed_dictionaries({'p': gen.weighted((12, gen.progs(cfg)), (1, gen.prog_huge(cfg))), 'sel': sel, 'a': gen.ridx(), 'b': gen.ridx()})
 
 
 @st.composite
